@@ -19,4 +19,15 @@ CLAIMED = {
         "note": "Trusts CoolProp HEOS; temperatures in the inner 96 % of (Tt,Tc); only calculate=True paths.",
         "technique": "property-based testing: exhaustive registry enumeration + hypothesis-generated thermodynamic/fallback cases against a PropsSI reference",
     },
+    "C02": {
+        "text": "Model-based histories: hypothesis draws a point isotherm in any unit configuration (incl. physically "
+                "handicapped ones) and 3-12 convert_* / convert / read operations with omitted, valid, wrong-table and unknown "
+                "arguments; after every step the labels must be valid, the data equal the reference conversion of the original "
+                "data, refusals leave the state untouched (combined convert == sequential single steps), frame and metadata "
+                "are invariant, reads at knots return stored data, and a fully specified trip home restores the numbers. "
+                "A second check runs all 58 fully specified single-quantity edges from generated configurations.",
+        "note": "Reference = pbt/ref_units.py (SI + CoolProp PropsSI); tolerance 1e-8/step plus the documented inaccuracy of "
+                "rounded table constants; whether an under-specified call is accepted or refused is left open.",
+        "technique": "property-based testing: model-based operation histories (hypothesis) against a reference conversion model + invariants after every step",
+    },
 }
